@@ -73,8 +73,48 @@ static inline void saveLoad(Driver& d, Inst& from, Inst& to, long step) {
 #endif
 
 inline void Driver::syncReplica(Inst& a, Inst& r) {
-	// bring the replica in line with what the authority just did, through the replay interface
+	// bring the replica in line with what the authority just did, through the replay interface only
+#ifdef HFSM2_ENABLE_TRANSITION_HISTORY
+	r.probe.step = a.probe.step;
+	const auto& prev = a.m->previousTransitions();
+	switch (lastOp) {
+	case OP_UPDATE: case OP_REACT: case OP_REACT2: case OP_IMMEDIATE:
+		if (prev.count()) {
+			opBegin(r, OP_REPLAY, (long)prev.count());
+			log.tag('y'); for (unsigned i = 0; i < prev.count(); ++i) { log.i(transId(prev[i])); log.i((int)prev[i].type); log.i((int)prev[i].destination); log.i(prev[i].origin == hfsm2::INVALID_STATE_ID ? -1 : (int)prev[i].origin); } log.nl();
+			const bool ok = r.m->replayTransitions(prev);
+			log.tag('v'); log.i(ok); log.nl();
+			opEnd(r);
+		}
+		break;
+	case OP_RESET:
+		opBegin(r, OP_RESET); r.m->reset(); opEnd(r); break;
+	case OP_EXIT:
+#if VH_MANUAL
+		opBegin(r, OP_EXIT); doExit(r); opEnd(r);
+		if (prev.count()) {
+			opBegin(r, OP_REPLAY_ENTER, (long)prev.count());
+			log.tag('y'); for (unsigned i = 0; i < prev.count(); ++i) { log.i(transId(prev[i])); log.i((int)prev[i].type); log.i((int)prev[i].destination); log.i(prev[i].origin == hfsm2::INVALID_STATE_ID ? -1 : (int)prev[i].origin); } log.nl();
+			r.probe.activating = true;
+			const bool ok = r.m->replayEnter(prev);
+			r.probe.activating = false; r.active = r.m->isActive();
+			log.tag('v'); log.i(ok); log.nl();
+			opEnd(r);
+		} else { opBegin(r, OP_ENTER); r.probe.noCancel = true; doEnter(r); r.probe.noCancel = false; opEnd(r); }
+#endif
+		break;
+	default: return;
+	}
+	// a diverged replica is re-synchronised by save/load so that later steps start "identically prepared"
+	if (cfgKey(*a.m, VH_SHAPE) != cfgKey(*r.m, VH_SHAPE)) {
+		log.tag('R'); log.i((long)a.probe.step); log.nl();
+#ifdef VH_SERIAL
+		saveLoad(*this, a, r, (long)a.probe.step);
+#endif
+	}
+#else
 	(void)a; (void)r;
+#endif
 }
 
 inline void Driver::stepAuthority(Inst& in, long k) {
@@ -91,6 +131,7 @@ inline void Driver::stepAuthority(Inst& in, long k) {
 	else if ((r -= wImm) < 0) op = OP_IMMEDIATE;
 	else if ((r -= wReset) < 0) op = OP_RESET;
 	else op = OP_EXIT;
+	lastOp = op;
 
 	switch (op) {
 	case OP_UPDATE:
@@ -108,7 +149,7 @@ inline void Driver::stepAuthority(Inst& in, long k) {
 		opEnd(in); break; }
 	case OP_IMMEDIATE: {
 		int kk, dest;
-		if (!pickReq(p, VH_KINDMASK, kk, dest) || kk == 6) { opBegin(in, OP_UPDATE); m.update(); opEnd(in); break; }
+		if (!pickReq(p, VH_KINDMASK, kk, dest) || kk == 6) { lastOp = OP_UPDATE; opBegin(in, OP_UPDATE); m.update(); opEnd(in); break; }
 		const int id = p.newId();
 		opBegin(in, op, kk, dest);
 		log.tag('q'); log.i(kk); log.i(dest); log.i(id); log.i(-1); log.nl();
@@ -135,9 +176,21 @@ inline int Driver::run() {
 	a.probe.step = 0;
 	opBegin(a, OP_ENTER); a.probe.noCancel = true; doEnter(a); a.probe.noCancel = false; opEnd(a);
 #endif
+	Inst* rep = nullptr;
+#if defined(VH_SERIAL) && defined(HFSM2_ENABLE_TRANSITION_HISTORY)
+	if (replica) {
+		rep = &make(2, true);
+		construct(*rep, 0);
+#if VH_MANUAL
+		opBegin(*rep, OP_ENTER); rep->probe.noCancel = true; doEnter(*rep); rep->probe.noCancel = false; opEnd(*rep);
+#endif
+		if (cfgKey(*a.m, VH_SHAPE) != cfgKey(*rep->m, VH_SHAPE)) { log.tag('R'); log.i(0); log.nl(); saveLoad(*this, a, *rep, 0); }
+	}
+#endif
 	for (long k = 1; k <= steps; ++k) {
 		stepAuthority(a, k);
-		if (wRecreate && (int)(next() % 1000) < wRecreate) { destroy(a, k); construct(a, k);
+		if (rep) syncReplica(a, *rep);
+		if (wRecreate && !rep && (int)(next() % 1000) < wRecreate) { destroy(a, k); construct(a, k);
 #if VH_MANUAL
 			opBegin(a, OP_ENTER); a.probe.noCancel = true; doEnter(a); a.probe.noCancel = false; opEnd(a);
 #endif
